@@ -34,6 +34,7 @@ func (c12) Gen(r *rand.Rand, tier string, run int) *core.Case {
 	c.Params["objects"] = 2 + r.IntN(2)
 	c.Params["focus"] = r.IntN(3)
 	c.Params["unset_level"] = r.IntN(2)
+	c.Params["service_busy"] = []int{0, 0, 5, 20, 60}[r.IntN(5)]
 	// sub-batches: a hostile client that keeps draining its connection, one
 	// that stops reading, and one that mostly mutates valid traffic
 	switch k := r.IntN(10); {
@@ -145,6 +146,23 @@ func (c12) Run(c *core.Case, env *core.Env) {
 		raw.mu.Lock()
 		raw.NoRead = true
 		raw.mu.Unlock()
+	}
+	if n := c.P("service_busy", 0); n > 0 {
+		// the service is not idle meanwhile: its objects update their
+		// property and emit their signals from goroutines of their own
+		for k, impl := range w.Impls {
+			impl := impl
+			k := k
+			go func() {
+				zzsim.SetNode("server")
+				for i := 1; i <= n; i++ {
+					impl.Helper.UpdateLevel(int32(100*k + i))
+					impl.Helper.SignalTick(int32(i))
+					zzsim.Yield("h.service-activity")
+				}
+			}()
+		}
+		env.Probe("service-busy")
 	}
 	h := env.Invoke(300, "hostile", fmt.Sprintf("%d operations, finale %d", len(c.Ops), finale))
 	alive := true
